@@ -56,7 +56,7 @@ L2_PROPS = {"C01", "C02", "C03", "C04", "C05", "C06", "C07", "C08", "C09", "C10"
 ALL_PROPS = sorted(set(L1_POPS) | L2_PROPS)
 
 SECS = {"quick": 30, "thorough": 420}
-CORPUS = {"quick": (10, 12, 8), "thorough": (24, 20, 12)}  # packages, programs per package, max tasks
+CORPUS = {"quick": (16, 12, 8), "thorough": (24, 20, 12)}  # packages, programs per package, max tasks
 
 COMPONENTS = {
     "l1": {
